@@ -28,17 +28,8 @@ theorem filter_refines_counts (ops : List FOp) (hlen : ops.length < 2 ^ 64) :
 /-- The bound is sharp and is the code's, not the proof's: the 2^64-th `add` of the same target overflows the
     `u64` counter (`*a += 1`), which panics in the profile the tests run in. -/
 theorem filter_counter_overflow (ep : Endpoint) (tsi : Nat) :
-    TsiFilter.run Filter.new (List.replicate (2 ^ 64) (FOp.add ep tsi)) = .error "add overflow" := by
-  have hsplit : List.replicate (2 ^ 64) (FOp.add ep tsi)
-      = List.replicate (2 ^ 64 - 1) (FOp.add ep tsi) ++ [FOp.add ep tsi] := by
-    rw [← List.replicate_succ']
-  rw [hsplit, TsiFilter.run_append]
-  obtain ⟨f, hf, hrep⟩ := run_frep (List.replicate (2 ^ 64 - 1) (FOp.add ep tsi)) Filter.new (fun _ => 0) (fun _ => 0)
-    frep_new (by intro x; simp) (by intro x; simp)
-  rw [hf]
-  have hc : cntFrom (fun _ => 0) (tsiOps (List.replicate (2 ^ 64 - 1) (FOp.add ep tsi))) (ep, tsi) = 2 ^ 64 - 1 := by
-    rw [tsiOps_replicate_add, cntFrom_replicate_add]; simp
-  simp only [TsiFilter.run, applyOp, add_overflow f _ _ ep tsi hrep hc]
+    TsiFilter.run Filter.new (List.replicate (2 ^ 64 - 1 + 1) (FOp.add ep tsi)) = .error "add overflow" :=
+  run_replicate_add_overflow (2 ^ 64 - 1) rfl ep tsi
 
 /-- non-vacuity + the wildcard rule on a concrete history: a listen entry WITHOUT source accepts packets from any
     source; a listen entry WITH source does not accept packets that carry no or another source; removing what was
@@ -234,7 +225,7 @@ theorem listener_all_closed_after_drop {σ π Out : Type} (M : Machine σ π Out
     alt k (MultiRecv.run M (State.new b) (ops ++ [.drop])).events = some false := by
   have h := listener_alternation M b (ops ++ [.drop]) k
   simp only at h
-  rw [h, run_append]
+  rw [h, MultiRecv.run_append]
   simp [MultiRecv.run, MultiRecv.step, MultiRecv.drop]
 
 /-- Every session end is notified: a close-session packet that finds its session, and an expiry at cleanup,
